@@ -411,7 +411,12 @@ func cmdTrace(args []string) {
 	n := fs.Int("n", 40, "")
 	fs.Parse(args)
 	p := mustProp(*prop)
-	for i := 0; i < *n; i++ {
+	stride := p.Cases(*tier) / *n
+	if stride < 1 {
+		stride = 1
+	}
+	for k := 0; k < *n; k++ {
+		i := k * stride // spread over the whole case space (systematic and generated parts)
 		res := runCase(p, &Case{Seed: caseSeed(*seed, i)}, *tier, i, false)
 		var ids []string
 		for _, s := range res.Sims {
